@@ -75,6 +75,10 @@ class Checker:
         return sum(1 for o in self.obs if o.rule == rule and o.verdict != "note")
 
     def check_expected(self):
+        if any(o.verdict == "violation" for o in self.obs):
+            # a violation is being reported anyway; a broken construct may legitimately hide
+            # the dependent instances of its rule
+            return
         for r, n in self.expected.items():
             c = self.count(r)
             if c < n:
